@@ -84,6 +84,15 @@ package bitmap
 //@     invariant forall k int :: 0 <= k && k < i ==> b[k] == 0xFF
 //@   props    C01 C09 C11
 
+//@ func (Bitmap).Count
+//@   alloc    0
+//@   ensures  [range] 0 <= $r0 && $r0 <= 8*len(b)
+//@   ensures  [zero]  ($r0 == 0) == (forall k int :: 0 <= k && k < len(b) ==> b[k] == 0)
+//@   loop 1
+//@     invariant 0 <= count && count <= 8*$i
+//@     invariant (count == 0) == (forall k int :: 0 <= k && k < $i ==> b[k] == 0)
+//@   props    C01 C03
+
 //@ func (Bitmap).Len
 //@   ensures  [range] 0 <= $r0 && $r0 <= 8*len(b)
 //@   loop 1
